@@ -156,6 +156,17 @@ func famC04(rn *Runner) {
 			rn.scalar(d, env, p, call("number"), "zero-argument-forms", "number() of the context node", true)
 			rn.scalar(d, env, p, call("string-length"), "zero-argument-forms", "string-length() of the context node", true)
 		}
+		// a node-set compared with a boolean is converted with boolean() - also by the relational operators, also when empty
+		emptyNS := &EPath{Abs: true, Steps: []*Stp{{Axis: "child", Test: NodeTest{Kind: "name", Local: "nope"}}}}
+		someNS := &EPath{Abs: true, Steps: []*Stp{{Axis: "descendant-or-self", Test: NodeTest{Kind: "node"}}}}
+		for _, op := range []string{"<", "<=", ">", ">=", "=", "!="} {
+			for _, ns := range []Expr{emptyNS, someNS} {
+				for _, b := range []Expr{call("true"), call("false")} {
+					rn.scalar(d, env, Path{}, bin(op, ns, b), "nodeset-vs-boolean", "node-set op boolean converts the node-set with boolean()", true)
+					rn.scalar(d, env, Path{}, bin(op, b, ns), "nodeset-vs-boolean", "boolean op node-set converts the node-set with boolean()", true)
+				}
+			}
+		}
 		for i := 0; i < rn.Scale(250, 800) && !rn.TooMany(); i++ {
 			ns := g.NodeSet(1, 2)
 			start := Path{}
@@ -224,6 +235,7 @@ func isNodeSetExpr(e Expr) bool {
 }
 
 func famC05(rn *Runner) {
+	rn.stressEvery = 4 // node-sets of more than 64 nodes on both sides
 	cmpOps := []string{"=", "!=", "<", "<=", ">", ">="}
 	mirror := map[string]string{"<": ">", "<=": ">=", ">": "<", ">=": "<=", "=": "=", "!=": "!="}
 	for di := 0; di < rn.Scale(8, 100) && !rn.TooMany(); di++ {
@@ -305,11 +317,17 @@ func famC06(rn *Runner) {
 		}
 	}
 	rn.DropDoc(d)
-	// sum and count over node-sets
+	// sum and count over node-sets (some documents have more than 64 like-named elements with non-integer values)
+	rn.stressEvery = 3
 	for di := 0; di < rn.Scale(8, 100) && !rn.TooMany(); di++ {
 		d := rn.genDoc(rn.Scale(50, 140))
 		env := stdEnv()
 		g := NewExprGen(rn.R.Fork(), d, env)
+		for _, t := range []string{"item", "a", "b"} {
+			all := &EPath{Abs: true, Steps: []*Stp{{Axis: "descendant", Test: NodeTest{Kind: "name", Local: t}}}}
+			rn.scalar(d, env, Path{}, call("sum", all), "sum", "sum over every element of one name (left to right, no compensation)", true)
+			rn.scalar(d, env, Path{}, call("sum", &EPath{Abs: true, Steps: []*Stp{{Axis: "descendant", Test: NodeTest{Kind: "name", Local: t}}, {Axis: "child", Test: NodeTest{Kind: "text"}}}}), "sum", "sum over text nodes", true)
+		}
 		for i := 0; i < rn.Scale(200, 600) && !rn.TooMany(); i++ {
 			ns := g.NodeSet(1, 2)
 			start := Path{}
@@ -366,6 +384,32 @@ func famC07(rn *Runner) {
 			if strings.HasPrefix(r, "PANIC") || strings.Contains(r, "�") {
 				continue
 			}
+		}
+		if i%50 == 0 {
+			// literals whose value begins or ends with a quote of the other kind
+			for _, q := range []string{"'", "\"", "'x", "x'", "\"x\"", "it's", "''", "'\u00e9"} {
+				rn.scalar(d, env, Path{}, call("string-length", lit(q)), "string-functions", "literal with a quote at its edge", true)
+				rn.scalar(d, env, Path{}, call("concat", lit(q), v("s"), lit(q)), "string-functions", "literal with a quote at its edge", true)
+				rn.scalar(d, env, Path{}, call("contains", v("s"), lit(q)), "string-functions", "literal with a quote at its edge", true)
+			}
+			// translate with a long second argument that repeats characters (the FIRST occurrence decides)
+			alpha := []rune("abcdefghijklmnopqrstuvwxyz\u00e9\u65e5")
+			var from, to []rune
+			for k, n := 0, 17+rn.R.Intn(30); k < n; k++ {
+				from = append(from, pick(rn.R, alpha[:8+rn.R.Intn(20)]))
+				if rn.R.Chance(5, 6) {
+					to = append(to, pick(rn.R, []rune("ABCDEFGHIJKLMNOPQRSTUVWXYZ0123456789")))
+				}
+			}
+			env2 := &Env{Vars: []VarBind{strVar("s", s+"banana abcdefghij"), strVar("f", string(from)), strVar("t", string(to))}}
+			rn.scalar(d, env2, Path{}, call("translate", v("s"), v("f"), v("t")), "string-functions", "translate with more than 16 mapped characters, some repeated", true)
+			rn.scalar(d, env2, Path{}, call("translate", v("f"), v("f"), v("t")), "string-functions", "translate with more than 16 mapped characters, some repeated", true)
+			// functions with many arguments
+			var many []Expr
+			for k, n := 0, 9+rn.R.Intn(8); k < n; k++ {
+				many = append(many, pick(rn.R, []Expr{v("s"), v("t"), v("p"), lit("-"), num("1")}))
+			}
+			rn.scalar(d, env, Path{}, call("concat", many...), "string-functions", "concat with nine or more arguments", true)
 		}
 		// literals (no quote/backslash characters)
 		if !strings.ContainsAny(s+t, "'\"\\") && i%4 == 0 {
